@@ -144,6 +144,12 @@ class ExcelInPython:
                     return self._by_operator(operator, str(left_operand), str(right_operand))
 
 
+    def _criterion_operand(self, text: str):
+        # the operand of a criterion that was put together with & (">2"&B5): the number the text denotes, else the text
+        if re.fullmatch(r'[+-]?[0-9]+([.][0-9]+)?(e-?[0-9]+)?', text):
+            return int(text) if re.fullmatch(r'[+-]?[0-9]+', text) and len(text) <= 300 else float(text)
+        return text
+
     def _with_rows_set_below(self, title: int, first_column: int, last_column: int, rows: List[List]) -> List[List]:
         # a whole-column area covers every row of its sheet: also the rows that cells set after the translation have
         # added below the last row of the workbook (the rows of the workbook are listed in the translated code)
